@@ -130,7 +130,8 @@ Definition minada_oracle (c : cfg) (own : bytes) (impl : Z) (unchanged : bool) :
       else if impl =? min_ada (cpb c) (d_map_size d') then OKc else FORMULA
   end.
 Definition minada_corr (c : cfg) (o : txout) (map_cbor : bytes) (impl : Z) : bool :=
-  (min_lovelace c o =? impl) && bytes_eqb (out_cbor_map o) map_cbor.
+  (min_lovelace c o =? impl)
+  && bytes_eqb (out_cbor_map (mkOut (o_addr o) (subst_coin (o_val o)) (o_datum o) (o_script o))) map_cbor.
 
 (* ---------- serialization refuses negative quantities ---------- *)
 Definition negative_anywhereb (v : value) : bool :=
